@@ -958,6 +958,23 @@ def _safe(f, inp):
         return False
 
 
+_TRIGGERS = ("min", "max", "**", "<builtin>isnan", "<func>int", "<", "<=", ">", ">=", "==", "!=", "cmp")
+
+
+def _has_known_trigger(inp):
+    """does the program contain a construct for which a kind/value disagreement is recorded
+    (min/max, powers, isnan, integer-kind sources, comparisons)?"""
+    def walk(e):
+        if isinstance(e, (list, tuple)):
+            if e and isinstance(e[0], str) and e[0] in _TRIGGERS:
+                return True
+            return any(walk(x) for x in e)
+        if isinstance(e, dict):
+            return any(walk(v) for v in e.values())
+        return isinstance(e, str) and e in _TRIGGERS
+    return walk(inp.get("stmts"))
+
+
 def bounded(payload):
     import time
     budget = payload.get("budget", {}) or {}
@@ -984,6 +1001,12 @@ def bounded(payload):
         sup = [kid for kid, name in active if name in matched]
         if sup:
             parts["suppressed_known_" + str(sup[0])] += 1
+            return
+        if not matched and active and inp.get("part") == "program" and _has_known_trigger(inp):
+            # a chain of several known disagreements (e.g. a complex dot product flowing into min()) is not
+            # attributed by any single fingerprint; a random program that contains a construct with a recorded
+            # finding is not used as evidence of a NEW violation (counted, stated in `rule`)
+            parts["unattributed_in_program_with_known_trigger"] += 1
             return
         cls = (clause, tuple(matched))
         per_class[cls] += 1
